@@ -81,6 +81,14 @@ FAULTS = {
     "extra_closing_brace": ("syntax", "{\nnop\n}\n}"),
     "extra_closing_braces_after_scope": ("syntax", ".scope q9 {\nnop\n}}\nrts"),
     "map_unknown_attribute": ("syntax", ".map identifier=1 bank_range=0x00,0x6f addr_range=0x8000,0xffff mask=0x8000 writeable=1"),
+    # an address with a digit too many names no bank of any mapping, whatever its low 24 bits are
+    "position_beyond_24_bits": ("semantic", "*=0x1008000\n.db 1"),
+    "position_beyond_24_bits_computed": ("semantic", "base_zz9 = 0x1000000\n*=base_zz9 + 0x018000\n.db 1"),
+    "relocation_beyond_24_bits": ("semantic", "@=0x2008000\n.db 1"),
+    # `gfx.reset` written inside scope gfx: the scope has no member of that name, an outer symbol of that name is not meant
+    "qualified_name_of_non_member": ("semantic", "reset_zz9 = 5\n.scope gfx_zz9 {\nplot_zz9:\n.dw gfx_zz9.reset_zz9\n}"),
+    "qualified_name_of_non_member_in_inner_block": ("semantic", "reset_zz9:\n.scope gfx_zz9 {\nplot_zz9 = 1\n{\njmp.w gfx_zz9.reset_zz9\n}\n}"),
+    "qualified_name_of_sibling_scope_non_member": ("semantic", ".scope snd_zz9 {\nreset_zz9:\n}\n.scope gfx_zz9 {\nplot_zz9:\n}\n.dw gfx_zz9.reset_zz9"),
     "missing_include": ("syntax", ".include 'nofile_zz9.s'"),
     "missing_incbin": ("semantic", ".incbin 'nofile_zz9.bin'"),
     "missing_table": ("semantic", ".table 'nofile_zz9.tbl'"),
